@@ -287,7 +287,7 @@ def body_sampled(col: Collector, case):
     if nt == "hidden-cycle":
         classes.append("cycle-unreachable-from-roots")
     # determinism under re-insertion order / shuffled frozensets (valid graphs)
-    if info["valid"]:
+    if info["valid"] and "order" in info:  # (no "order" when the graph oracle already recorded a failure)
         from leaspy.variables.dag import VariablesDAG
 
         rev = list(reversed(nodes))
